@@ -38,6 +38,18 @@ from . import quoteinst
 from .extract import ExtractError, add_markers, strip_markers, find_blocks, find_fns, apply_edits, attributed_extent
 
 SCHEMA = quoteinst.schema_world('WorldS', [('ArchA', 7, [('CompX', 0), ('CompY', 1)]), ('ArchB', 8, [('CompX', 0), ('CompZ', 1)])])
+# further schemas (thorough tier): the contracts are written in the generator's template notation, so they instantiate for any shape.
+# The ids are what DataWorld::new computes for the declarations (explicit id, else previous + 1, else 0: verified under C15).
+#   S1:  ecs_world! { ecs_name!(WorldU); ecs_archetype!(ArchP, CompX); }
+#   S3:  ecs_world! { ecs_name!(WorldT); ecs_archetype!(ArchP, CompX, CompY, CompZ); #[archetype_id(200)] ecs_archetype!(ArchQ, CompZ, CompX, CompY);
+#                     ecs_archetype!(ArchR, CompY, #[component_id(9)] CompZ, CompX); }
+SCHEMAS = {
+    2: SCHEMA,
+    1: quoteinst.schema_world('WorldU', [('ArchP', 0, [('CompX', 0)])]),
+    3: quoteinst.schema_world('WorldT', [('ArchP', 0, [('CompX', 0), ('CompY', 1), ('CompZ', 2)]),
+                                         ('ArchQ', 200, [('CompZ', 0), ('CompX', 1), ('CompY', 2)]),
+                                         ('ArchR', 201, [('CompY', 0), ('CompZ', 9), ('CompX', 10)])]),
+}
 
 
 def tag_of(a):
@@ -301,17 +313,7 @@ def impl_to_inherent(text, trait_rx, log, rule='R-inherent', rename=None):
         log.rule(rule, b.key)
 
 
-# ---------------------------------------------------------------------------------------------- instantiated generator text
-
-def generated_text(read_repo, cfg, log):
-    raw = add_markers(read_repo('macros/src/generate/world.rs'), 'gworld')
-    q = quoteinst.Quoter(raw, cfg, log, 'macros/src/generate/world.rs')
-    if 'section_event_iter' not in q.fns:
-        raise ExtractError('R-world: section_event_iter not found')
-    q.drop_fns['section_event_iter'] = 'EcsEventIterator (std::slice::Iter adapter; returns impl Iterator) is not extracted'
-    text = q.eval_fn('generate_world', [SCHEMA, 'RAW'])
-    return text
-
+# ---------------------------------------------------------------------------------------------- adaptation of the instantiated generator text
 
 def tag_rewrite(text, archs, log):
     names = '|'.join(archs)
@@ -331,14 +333,14 @@ def tag_rewrite(text, archs, log):
     return text
 
 
-def self_rewrite(text, log):
+def self_rewrite(text, archs, log):
     """inside `impl .. for ArchX` / `impl ArchX`: Entity::<Self>, <Self as Archetype>::.. -> concrete"""
     msk, blocks, fns = blocks_fns(text)
     edits = []
     for b in blocks:
         if b.kind != 'impl':
             continue
-        m = re.search(r'(?:for)?(Arch[A-Z])$', b.key)
+        m = re.search(r'(?:for|^)(%s)$' % '|'.join(re.escape(a) for a in archs), b.key)
         if not m:
             continue
         a = m.group(1)
@@ -390,9 +392,10 @@ def split_archetype_impl(text, a, log):
     return text[:b.header_start] + new + text[b.close + 1:]
 
 
-def adapt_generated(text, log, read_repo):
-    archs = [a.name for a in SCHEMA.archetypes]
-    world = SCHEMA.name
+def adapt_generated(text, log, read_repo, schema=None):
+    schema = schema or SCHEMA
+    archs = [a.name for a in schema.archetypes]
+    world = schema.name
     # unwrap the sealed module; drop re-exports, macro_rules and the convenience module
     msk = rs.mask(text)
     m = re.search(r'(?m)^[ \t]*mod\s+ecs_\w+_sealed\s*\{', msk)
@@ -410,6 +413,11 @@ def adapt_generated(text, log, read_repo):
     # R-derive: the BorrowN wrapper is Clone + Copy in the repository; the extracted BorrowN carries no derive (see storage unit)
     text, nb = re.subn(r'#\[derive\(Clone, Copy\)\](?=(?:/\*@[^*]*\*/|\s)*pub struct \w+Borrow<)', '', text)
     log.rule('R-derive', 'derive(Clone, Copy) on %d generated Borrow wrappers dropped' % nb)
+    # R-implit-concrete: the event iterators return `impl Iterator<Item = &T>`; the return type is written as the concrete type of the
+    # body (`slice.iter()` -> std::slice::Iter<'_, T>, `EcsEventIterator { .. }` -> EcsEventIterator<'_>): rustc checks that it IS the
+    # body's type, and the contract can then speak about the iterator's remaining elements
+    text = msub(text, r"(fn\s+iter_(?:created|destroyed)\s*\(&self\)\s*->\s*)impl\s+Iterator<Item\s*=\s*&(Entity<\w+>)>", r"\1Iter<'_, \2>", log, 'R-implit-concrete')
+    text = msub(text, r"(fn\s+iter_(?:created|destroyed)\s*\(&self\)\s*->\s*)impl\s+Iterator<Item\s*=\s*&EntityAny>", r"\1EcsEventIterator<'_>", log, 'R-implit-concrete')
     # R-implit / R-refmut
     text = drop_fns_where(text, lambda f, sig: re.search(r'->\s*impl\s+Iterator', sig) is not None, 'R-implit', log)
     text = drop_fns_where(text, lambda f, sig: re.search(r'->\s*RefMut\s*<', sig) is not None, 'R-refmut', log)
@@ -428,9 +436,10 @@ def adapt_generated(text, log, read_repo):
     text = impl_to_inherent(text, r'^Componentsfor', log)
     text = impl_to_inherent(text, r'^View<\'a>for', log)
     text = impl_to_inherent(text, r'^Borrow<\'a>for', log)
+    text = impl_to_inherent(text, r'^Iteratorfor', log)        # EcsEventIterator: nothing in the verified text calls it through the trait
     # R-tag
     text = tag_rewrite(text, archs, log)
-    text = self_rewrite(text, log)
+    text = self_rewrite(text, archs, log)
     text = rule_implarg(text, log)
     # bodies
     text = rule_private(text, read_repo, log)
